@@ -90,6 +90,18 @@ CLAIMS = {
                 'Non-emptiness whenever A is non-empty is not decided as such.',
         'note': 'trusted: clang 14 AST, exporter; frozen exception: one rule per newly reached state is the design of the witness',
     },
+    'C16': {
+        'text': 'Decides the bookkeeping disciplines the partition-refinement engine rests on, not its fix-point: every per-block, per-label datum (remove list stored, counter '
+                'set/decremented, work item queued, enqueueToRemove) is touched only with evidence that the label is in the inset of that block (loop over B->inset_, contains() guard, '
+                'or a pair received from the caller); the predecessor list of the dequeued block is built from the parameter block before any call that can reassign Block::states_; '
+                'a block made by the splitting constructor is added to the partition only together with relation_.split on every path; the remove list taken for processing is '
+                'detached from its block before split/enqueue/unsafeRelease; SharedCounter::copyLabels copies master_ on every path on which it copies data_ (COPYALL); the removal '
+                'mask is sized by the state count, not by a block count that split() grows (STALESIZE); the queue is read and popped at the same end and drained (QUEUEENDS, DRAIN); '
+                'RestrictToSymmetric / quotient loops cover the whole range (LOOPBOUND witness); no scalar of the engine is read uninitialised (INIT). That the refinement computes the '
+                '*greatest* simulation inside the given preorder is not decided.',
+        'note': 'trusted: clang 14 AST/CFG, exporter; field names of Block (inset_, remove_, counter_, states_) and of the engine (queue_, partition_, relation_) are registered entities; '
+                'five independently written breaking changes of the engine (seeded/C04-2/-3, C05-3/-5, C20-1 and their duplicates) are each caught by one of these clauses',
+    },
     'C17': {
         'text': 'Decides the disciplines canonicity and pointwise application rest on, on every instantiation of the package: nodes are created only through the unique tables, no internal node with equal children is spawned '
                 '(two frozen, reasoned exceptions), every apply clears its address-keyed memo table before descending, the recursion pairs low with low and high with high and builds (low result, high result), '
@@ -119,7 +131,6 @@ CLAIMS = {
 
 NOT_APPLICABLE = {
     'C06': 'exactness of a determinisation-style construction has no structural necessary condition a static rule in reach can decide (DESIGN.md section 4)',
-    'C16': 'fix-point correctness of the partition-refinement engine is not visible in code shape (DESIGN.md section 4)',
 }
 for _p in ['C01', 'C02', 'C03', 'C04', 'C05', 'C07', 'C08', 'C09', 'C10', 'C11', 'C12', 'C13', 'C14', 'C15', 'C17', 'C18', 'C19']:
     NOT_APPLICABLE.setdefault(_p, NOT_YET)
